@@ -55,7 +55,8 @@ type fcfg struct {
 func newFWorld(id string, cfg fcfg) (*fworld, error) {
 	s := sim.NewCluster()
 	fw := &fworld{id: id, sim: s}
-	e, err := env.New(s, true)
+	// API discovery is refreshed every 25 ms while the workers run
+	e, err := env.NewWithDiscoveryInterval(s, true, 25*time.Millisecond)
 	if err != nil {
 		return nil, err
 	}
